@@ -173,8 +173,7 @@ def main(replay=None):
     quick = ck.tier != "thorough"
     bdir, hb = ck.prepare("Props/Properties_C13.v", "h_c13.cpp")
     if hb is None or any(v[0] == "extract" for v in ck.violations):
-        ck.drop_proof_violation_if(any(v[3] for v in ck.violations))
-    return ck.finish()
+        return ck.finish()
     maxn = 7 if quick else 40
     if replay:
         rp = json.load(open(replay))
@@ -264,5 +263,7 @@ def main(replay=None):
     ck.assumptions += ["BLAS routines (DGEMM DGEMV DSYMM DSPMV DGER DAXPY DCOPY DDOT DNRM2 DSCAL) behave as the reference semantics written in DenseModel.v, incl. the quick returns of DGEMV and the cblas leading-dimension tests",
                        "dimension products stay below 2^31 (no truncation in sizet_to_int); the accessors' 32-bit index arithmetic is the subject of C18",
                        "LAPACK-backed methods (inverse, pinverse, svd, solveLin, det, posdefinverse) are only measured against their defining equations"]
+    if not replay and ck.cov.get("evaluations", 0) < 100:
+        ck.violation("no-cases", "the check evaluated almost nothing (%s cases): the run is void" % ck.cov.get("evaluations", 0), dict(kind="void"), found_input=False)
     ck.drop_proof_violation_if(any(v[3] for v in ck.violations))
     return ck.finish()
